@@ -23,7 +23,7 @@ func C09(r *core.Run) {
 		"(R09.1n) nilable fields (GoFakeS3.versioned, bucketObject.versions/data, iterator fields) are dereferenced only where established non-nil on every path; " +
 		"(R09.1t) unchecked type assertions only on homogeneous skiplist classes; (R09.1p) explicit panics are in the reviewed table; (R09.1a) request-sized allocations are bounded; " +
 		"(R09.2) every route switch has a default arm returning an S3 error and routeBase ends in NotFound; (R02.4) error funnel and status table; " +
-		"(R09.4) locks released by explicit unlock protect only code with no undischarged obligation; (R09.6) each middleware answers or calls next exactly once; (R09.7) no blocking primitive in handler-reachable code; (R09.8) bolt transactions are closure-scoped (View/Update), never opened with Begin. (L1, shared) every mutex acquire is released on every path to every return: a lock kept on an error path hangs every later request on that backend."
+		"(R09.4) locks released by explicit unlock protect only code with no undischarged obligation; (R09.6) each middleware answers or calls next exactly once; (R09.7) no blocking primitive in handler-reachable code; (R09.8) bolt transactions are closure-scoped (View/Update), never opened with Begin. (L1, shared) every mutex acquire is released on every path to every return: a lock kept on an error path hangs every later request on that backend. (L3, shared) the lock-order graph is acyclic: two requests cannot wait for each other forever."
 	r.NotDecided = "panics inside dependencies (bbolt, afero, encoding/xml) on hostile data, nil results of backend calls and map lookups (heap invariants), memory exhaustion, slow-client hangs, non-terminating loops, the post-request canary"
 	r.TrustedBase = append(r.TrustedBase, "gc's prove pass (completeness of the bounds-obligation list)", "library post-condition table (strings.Split*, strings.Index*, HasPrefix/HasSuffix, io.Reader.Read, sort.Slice comparator indices)", "reviewed discharge table in rules/c09.go")
 	reach := reachableFrom(r, handlerRoots(r))
@@ -38,7 +38,9 @@ func C09(r *core.Run) {
 	rule092(r)
 	rule024(r)
 	rule094(r, ctx, undischarged)
-	ruleL1(r, newLockset(r))
+	lsa := newLockset(r)
+	ruleL1(r, lsa)
+	ruleL3(r, lsa)
 	rule096(r)
 	rule097(r, reach)
 	rule098(r)
